@@ -147,6 +147,13 @@ class C03(Prop):
                 v = v.item() if c["rhs"] == "scalar" else np.array(v)
             return v, None
         shp = self.selection_shape(c)
+        if shp and any(s == 0 for s in shp):
+            # empty selection: nothing is written, but the right-hand side must still broadcast to its shape
+            if c["rhs"] == "array":
+                return rhs_values(0, kind).reshape(shp), list(shp)
+            if len(shp) > 1 and int(np.prod(shp[1:])) > 0:
+                n = int(np.prod(shp[1:]))
+                return rhs_values(n, kind).reshape(shp[1:]), list(shp[1:])
         if not shp or any(s == 0 for s in shp):
             v = rhs_values(1, kind)[0]
             return (v.item() if kind != "O" else v), None
